@@ -230,8 +230,28 @@ func runDisk(c *run.Ctx) {
 		advClass = cl
 		main.Content = fmt.Sprintf("(tag: %q, adv: //%s)", main.Tag, a)
 	}
+	// an imported file is a closed expression: a name bound at the import site must not reach it
+	freeProbe := !adversarial && t.Bool(1, 6)
+	if freeProbe {
+		main.Content = fmt.Sprintf("(tag: %q, probe: let zz_free = %d; //{./zzfree})", main.Tag, t.Draw(9))
+	}
+	// ... and it is its own compilation unit: syntax that is only legal on the right of a merge must not
+	// become legal in a file because the import expression happens to stand there
+	sugarProbe := !adversarial && !freeProbe && t.Bool(1, 6)
+	if sugarProbe {
+		main.Content = fmt.Sprintf("(tag: %q, probe: (a: (b: 1)) +> //{./zzsugar}, again: //{./zzsugar})", main.Tag)
+		freeProbe = true // same verdict: the evaluation must fail
+	}
 	base := simfs.New("disk", W)
 	l.Install(base)
+	if sugarProbe {
+		base.Put(main.Dir()+"/zzsugar.arrai", "(a +>: (c: 3))")
+		c.Probe("import-of-merge-sugar-file-inside-a-merge")
+	}
+	if freeProbe && !sugarProbe {
+		base.Put(main.Dir()+"/zzfree.arrai", "(free: zz_free)")
+		c.Probe("import-of-file-with-free-name")
+	}
 
 	// how the main file is named: absolute, or relative to a cwd inside/outside the tree
 	mainArg := main.Path
@@ -329,6 +349,16 @@ func runDisk(c *run.Ctx) {
 		// with an unreadable sentinel only confinement and information flow are judged
 		return
 	}
+	if freeProbe {
+		if r.err == nil && r.panicMsg == "" {
+			if sugarProbe {
+				c.Violate("consistent", "C16/import-compiled-with-importer-flags", "zzsugar.arrai is `(a +>: (c: 3))`, which does not compile on its own; imported on the right of a `+>` it evaluated (%s): what an imported file means depends on where the import expression stands", r.v)
+				return
+			}
+			c.Violate("consistent", "C16/import-sees-importer-scope", "zzfree.arrai uses the name zz_free, which it does not define; imported below `let zz_free = ...` it evaluated to %s: the value of an imported file depends on who imports it", r.v)
+		}
+		return
+	}
 	// (iii) consistency
 	if r.panicMsg != "" {
 		c.Violate("no-crash", "C16/panic/"+r.frame, "evaluation panicked: %s (layout %v)", r.panicMsg, l.Describe())
@@ -410,7 +440,10 @@ func runCyclic(c *run.Ctx) {
 		fs.Put(top+"/go.mod", "module example.com/cyc\n")
 	}
 	n := t.Range(1, 5)
-	names := []string{"a", "b", "c", "d", "e"}[:n]
+	if t.Bool(1, 6) {
+		n = t.Range(11, 16) // a back edge to a file far up the chain of imports
+	}
+	names := []string{"a", "b", "c", "d", "e", "f", "g", "h", "i", "j", "k", "l", "m", "n", "o", "p"}[:n]
 	control := t.Bool(1, 4) // acyclic control
 	shape := "self"
 	if n > 1 {
